@@ -128,6 +128,9 @@ func HarnessC08_Loop() {
 		// flushed, then the entry is removed (or kept, if so configured)
 		unreg := vfChoice("unregister_on_shutdown", 2) == 1
 		l.SetUnregisterOnShutdown(unreg)
+		// optionally the instance lingers after its shutdown work (final sleep longer than a heartbeat period)
+		finalSleep := time.Duration(vfChoice("final_sleep", 2)) * 6 * time.Second
+		l.cfg.FinalSleep = finalSleep
 		before := vfCloneDesc(store.val.(*Desc))
 		stopDone := make(chan error, 1)
 		go func() { stopDone <- l.stopping(nil) }()
@@ -151,6 +154,11 @@ func HarnessC08_Loop() {
 		}
 		close(flusher.gate)
 		vfQuiesce()
+		if finalSleep > 0 {
+			vfAdvance(finalSleep + 300*time.Millisecond)
+			elapsed += finalSleep + 300*time.Millisecond
+			vfQuiesce()
+		}
 		select {
 		case err := <-stopDone:
 			vfAssert(err == nil, "C08 shutdown succeeds")
